@@ -512,17 +512,20 @@ package gabi
 //@ # ---- issuer side (C05 signing, C06) ----
 //@ pred wfsk(sk) := sk != nil && sk.Order != nil && val(sk.Order) > 1
 //@ # CL signing: v = 2^(lv-1) + v~, Q = Z / (S^v * R(ms) * U) mod N, e a probable prime >= 2^(le-1), d = e^-1 mod the group order (the two inverses are
-//@ # the results of this call's ModInverse calls: ghosts iq, d, with their defining congruences), A = Q^d mod N
+//@ # the results of this call's ModInverse calls: ghosts iq, d, with their defining congruences over the inverted values num, ev and the modulus ordv as they were at the calls), A = Q^d mod N
 //@ func signMessageBlockAndCommitment
 //@   property C05 C06
 //@   safety
 //@   requires wfsk(sk) && wfpk(pk) && U != nil && forall i in 0..len(ms) :: ms[i] != nil && val(ms[i]) >= 0
 //@   requires pk.Params.Lv >= 2 && pk.Params.Lv <= 65536 && pk.Params.Le >= 2 && pk.Params.Le <= 65536 && pk.Params.LePrime >= 2 && pk.Params.LePrime <= 65536
 //@   ghost at common.ModInverse[#0] iq: val($r0)
+//@   ghost at common.ModInverse[#0] num: val($0)
 //@   ghost at common.ModInverse[#1] d: val($r0)
+//@   ghost at common.ModInverse[#1] ev: val($0)
+//@   ghost at common.ModInverse[#1] ordv: val($1)
 //@   ensures shape: err == nil ==> result0 != nil && fresh(result0) && result0.A != nil && result0.E != nil && result0.V != nil && result0.KeyshareP == nil
 //@   ensures[C05] exponent: err == nil ==> isprime(val(result0.E)) && val(result0.E) >= pow2(pk.Params.Le - 1) && pow2(pk.Params.Lv - 1) <= val(result0.V) && val(result0.V) < pow2(pk.Params.Lv)
-//@   ensures[C05] signed: err == nil ==> rem(rem(prod(prod(pow(val(pk.S), val(result0.V), val(pk.N)), represent(pk.R, ms, pk.N, pk.Params.Lm, 0, len(ms))), val(U)), val(pk.N)) * ghost(iq) - 1, val(pk.N)) == 0 && rem(val(result0.E) * ghost(d) - 1, val(sk.Order)) == 0 && val(result0.A) == pow(rem(prod(val(pk.Z), ghost(iq)), val(pk.N)), ghost(d), val(pk.N))
+//@   ensures[C05] signed: err == nil ==> ghost(num) == rem(prod(prod(pow(val(pk.S), val(result0.V), val(pk.N)), represent(pk.R, ms, pk.N, pk.Params.Lm, 0, len(ms))), val(U)), val(pk.N)) && rem(prod(ghost(num), ghost(iq)) - 1, val(pk.N)) == 0 && ghost(ev) == val(result0.E) && ghost(ordv) == val(sk.Order) && rem(prod(ghost(ev), ghost(d)) - 1, ghost(ordv)) == 0 && val(result0.A) == pow(rem(prod(val(pk.Z), ghost(iq)), val(pk.N)), ghost(d), val(pk.N))
 //@   ensures fail: err != nil ==> result0 == nil
 //@   modifies nothing
 
